@@ -17,9 +17,9 @@ theorem Dr_N1_normal (ρ : Nat → K) :
     match Gen.Dr_N1_v.all, Gen.Dr_N1_n.all with
     | [v], [r, n0, n1, n2] =>
         eval c c3 fn ρ r = eval c c3 fn ρ v ∧
-        eval c c3 fn ρ n0 = (evalD c c3 fn ρ (dir 0) v).2 ∧
-        eval c c3 fn ρ n1 = (evalD c c3 fn ρ (dir 1) v).2 ∧
-        eval c c3 fn ρ n2 = (evalD c c3 fn ρ (dir 2) v).2
+        eval c c3 fn ρ n0 = evalD c c3 fn ρ (dir 0) v ∧
+        eval c c3 fn ρ n1 = evalD c c3 fn ρ (dir 1) v ∧
+        eval c c3 fn ρ n2 = evalD c c3 fn ρ (dir 2) v
     | _, _ => False := by
   simp only [Gen.Dr_N1_v.all, Gen.Dr_N1_n.all]
   unfold_eval
